@@ -143,6 +143,9 @@ def check(F, R):
     s_result(F, R, I, S)
     err_kind(F, R)
     s_any(F, R)
+    import c06
+    n = c06.d_scope_use(F, R, rule="D-SCOPE-USE")
+    R.ob("D-SCOPE-USE", "functions", n >= 4, "", "expected at least 4 type-checking functions that open one frame per iteration, found %d" % n)
 
 
 def s_ops(F, R, I, S):
